@@ -31,10 +31,10 @@ Lemma lock_order_table :
   forallb (fun o => tmpl_ok op (template o)) all_ops = true.
 Proof. vm_compute. repeat split. Qed.
 
-(* the session lock is taken before a row lock, never the other way round; the
-   graph is not empty *)
-Example nesting_nonempty : edge_in nesting_edges LSess LRow = false /\ nesting_edges = nesting_edges.
-Proof. split; [vm_compute; reflexivity | reflexivity]. Qed.
+(* the session lock is taken before a row lock (since the row-lock repairs of /repo the nesting does occur),
+   never the other way round *)
+Example nesting_nonempty : edge_in nesting_edges LSess LRow = true /\ edge_in nesting_edges LRow LSess = false.
+Proof. split; vm_compute; reflexivity. Qed.
 
 Lemma ops_ordered : forall o rows, ordered op rank [] (body op template o rows).
 Proof.
@@ -113,12 +113,13 @@ Definition racyb (a b : op) (f : field) : bool :=
 Definition lockset_holds : Prop :=
   forall a b f, concurrent_allowed a b = true -> racyb a b f = false.
 
-(* REFUTED on the faithful model: LastSeen written under the session READ lock, read by purge under the row lock *)
+(* REFUTED on the faithful model: the `closed` flag of the session is tested and set by Close with no lock
+   (before the row-lock repairs of /repo the witness was LastSeen, written under the session READ lock) *)
 Lemma lockset_refuted : exists a b f, concurrent_allowed a b = true /\ racyb a b f = true.
-Proof. exists ParseFast, Purge, FHostLastSeen. vm_compute. split; reflexivity. Qed.
+Proof. exists SessClose, SessClose, FSessClosed. vm_compute. split; reflexivity. Qed.
 
-(* the same refutation as an execution: a reachable state in which Parse.fast is about to write and purge
-   about to read Host.LastSeen of the same row, holding no common lock *)
+(* the same refutation as an execution: a reachable state in which one Close is about to write and another
+   about to read Session.closed, holding no lock *)
 Definition next_access (t : thread op) : option (loc * bool) :=
   match rest op t with
   | Rd _ x :: _ => Some (x, false)
@@ -135,8 +136,8 @@ Definition race_stateb (s : state op) (i j : nat) : bool :=
       end
   | _, _ => false
   end.
-Definition race_init := init op template [(ParseFast, [1]); (Purge, [1])].
-Definition race_witness := run op template race_init [0; 0; 0; 0; 0; 1; 1; 1; 1; 1].
+Definition race_init := init op template [(SessClose, [1]); (SessClose, [1])].
+Definition race_witness := run op template race_init [0; 0].
 Lemma race_state_reachable :
   reachable op template race_init race_witness /\ race_stateb race_witness 0 1 = true.
 Proof. split; [apply run_reachable; apply reach_refl | vm_compute; reflexivity]. Qed.
